@@ -26,6 +26,22 @@ pub open spec fn heartbeat_post(i: Seq<u8>, rec_len: u16, r: IResult<&[u8], Vec<
             Err(_) => false } }
     }
 }
+
+// ChangeCipherSpec (RFC 5246 7.1): the single byte 1; any other byte is rejected
+pub open spec fn ccs_post(i: Seq<u8>, r: IResult<&[u8], TlsMessage>) -> bool {
+    if i.len() < 1 { r is Err && r->Err_0 is Incomplete }
+    else if i[0] != 1 { r is Err && r->Err_0 is Error && r->Err_0->Error_0.code == ErrorKind::Verify }
+    else { match r { Ok((rem, TlsMessage::ChangeCipherSpec)) => rem@ =~= i.subrange(1, i.len() as int), _ => false } }
+}
+// Alert (RFC 5246 7.2): level byte, description byte - any values
+pub open spec fn alert_struct_post(i: Seq<u8>, r: IResult<&[u8], TlsMessageAlert>) -> bool {
+    if i.len() < 2 { r is Err && r->Err_0 is Incomplete }
+    else { match r { Ok((rem, a)) => a.severity.0 == i[0] && a.code.0 == i[1] && rem@ =~= i.subrange(2, i.len() as int), Err(_) => false } }
+}
+pub open spec fn alert_post(i: Seq<u8>, r: IResult<&[u8], TlsMessage>) -> bool {
+    if i.len() < 2 { r is Err && r->Err_0 is Incomplete }
+    else { match r { Ok((rem, TlsMessage::Alert(a))) => a.severity.0 == i[0] && a.code.0 == i[1] && rem@ =~= i.subrange(2, i.len() as int), _ => false } }
+}
 '''
 
 UNIT = {
@@ -44,6 +60,16 @@ UNIT = {
         {"file": F_MSG, "kind": "fn", "name": "parse_tls_message_applicationdata", "contract": """
     ensures r is Ok, r->Ok_0.0@.len() == 0, r->Ok_0.1 is ApplicationData, r->Ok_0.1->ApplicationData_0.blob@ =~= i@,
 """},
+        {"file": F_MSG, "kind": "fn", "name": "parse_tls_message_changecipherspec", "contract": "    ensures ccs_post(i@, r),",
+         # R15: closure parameter pattern `&tag` -> parameter `tag: &u8` (body `tag` -> `*tag`), with its (trivial) contract
+         "subst": [(r"verify\(be_u8, \|&tag\| tag == 0x01\)", "verify(be_u8, |tag: &u8| -> (b: bool) ensures b == (*tag == 0x01) { *tag == 0x01 })")],
+         "splices": [{"at_start": True, "text": "    proof { reveal_with_fuel(be_val, 2); }"}]},
+    ] + [dict(it, with_parse=False) for it in newtype_items("TlsAlertSeverity", 1) + newtype_items("TlsAlertDescription", 1)] + [
+        {"file": "@expanded", "kind": "derived", "name": "TlsMessageAlert", "with_parse": True, "contract": "ensures alert_struct_post(orig_i@, r),",
+         "splices": [{"at_start": True, "text": "    let ghost i0 = orig_i@;\n    proof { reveal_with_fuel(be_val, 2); }"},
+                     {"after": r"let \(i, severity\) = [^;]*;", "text": "    proof { assert(severity.0 == i0[0]); assert(i@ =~= i0.subrange(1, i0.len() as int)); }"},
+                     {"after": r"let \(i, code\) = [^;]*;", "text": "    proof { assert(code.0 == i0[1]); assert(i@ =~= i0.subrange(2, i0.len() as int)); }"}]},
+        {"file": F_MSG, "kind": "fn", "name": "parse_tls_message_alert", "contract": "    ensures alert_post(i@, r),"},
     ],
     "epilogue": "",
 }
